@@ -332,6 +332,7 @@ def decide_X(prop, tier, seed, t0, replay):
         "rule": "operations = API-level calls (new/new_uninit/get/set/unpack/drop/4 conversion forms/clone/clone_from/serde round trips/placements) on generated modules compiled in 3 builds (debug+hook, release+hook, release without hook), each compared with the Lean machine's prediction (values, drop multiset, primitive-access multiset); distinct by request text; non-trivial = everything but plain constructors and reads",
         "samples": an["samples"][:3], "traces_validated_against_impl": an["ops"], "modules": an["modules"], "ops_by_kind": an["by_op"],
         "modules_meeting_theorem_hypotheses (ModuleWF evaluated by the driver)": an.get("modules_meeting_theorem_hypotheses"),
+        "modules_passing_the_modelled_move_and_mut_rules (GenCheck evaluated by the driver)": an.get("modules_passing_body_rules"),
         "primitive_accesses_checked": an["accesses"], "variant_layouts_checked_for_overlap": an.get("layouts_checked"), "definitions_the_builder_panicked_on": len(an.get("builder_panics", [])), "disagreements": an["n_disagree"] + lan.get("n_disagree", 0), "oracle_hits": len(oracle),
         "generator_histories_compared": lan["histories"],
         "builds": {k: {kk: vv for kk, vv in v.items() if kk != "dir"} for k, v in info["builds"].items()},
